@@ -53,6 +53,7 @@ func writeEvidence(opt Options, e Engine, d Description, st *WorkerStats, nState
 		"workers":                 opt.Workers,
 		"max_run_index":           st.MaxIdx,
 		"budget_s":                opt.BudgetS,
+		"seeds":                   opt.Seeds,
 		"exhaustive":              false,
 	}
 	if vio != nil {
